@@ -160,20 +160,20 @@ def can_harness_source(schema: Schema, structs: list) -> str:
     """TU for the CAN wrapper (can_static_schema.h): can_enc(name, frame15) -> 0/1 and can_dec(frame15, name_out) -> -1 | len,
     plus mk_<S>(args, S*) / dump_<S>(const S*, area) which the native models of S::FromJson / S::DecodeJson call: JSON
     itself is never executed, a null json is handed through."""
-    out = _prelude(['#include "can.h"', '#include "can_static_schema.h"'])
+    out = _prelude(['#include <memory>', '#include "can.h"', '#include "can_static_schema.h"'])
     build = _builders(schema, out)
     for sn in structs:
         b, d = build(("struct", sn))
         out.append(f'extern "C" void mk_{sn}(const unsigned char* args, {sn}* out) {{ Rd r{{args}}; new (out) {sn}({b}(r)); }}')
         out.append(f'extern "C" unsigned long dump_{sn}(const {sn}* x, unsigned char* area) {{ Wr w{{area}}; {d}(*x, w); '
                    f'return (unsigned long)(w.p - area); }}')
-    out.append('extern "C" int can_enc(const char* name, unsigned char* out) { fcp::can::CanStaticSchema s; nlohmann::json j; '
+    out.append('extern "C" int can_enc(const char* name, unsigned char* out) { fcp::can::Can s{std::make_shared<fcp::can::CanStaticSchema>(fcp::can::CanStaticSchema{})}; nlohmann::json j; '
                'auto f = s.Encode(std::string(name), j); if (!f.has_value()) return 0; '
                'std::memcpy(out, f->bus.data(), 4); std::memcpy(out + 4, &f->sid, 2); out[6] = f->dlc; '
                'std::memcpy(out + 7, f->data.data(), 8); return 1; }')
     out.append('extern "C" long can_dec(const unsigned char* in, char* name_out) { fcp::can::frame_t f; '
                'std::memcpy(f.bus.data(), in, 4); std::memcpy(&f.sid, in + 4, 2); f.dlc = in[6]; std::memcpy(f.data.data(), in + 7, 8); '
-               'fcp::can::CanStaticSchema s; auto r = s.Decode(f); if (!r.has_value()) return -1; '
+               'fcp::can::Can s{std::make_shared<fcp::can::CanStaticSchema>(fcp::can::CanStaticSchema{})}; auto r = s.Decode(f); if (!r.has_value()) return -1; '
                'for (unsigned long i = 0; i < r->first.size(); i++) name_out[i] = r->first[i]; return (long)r->first.size(); }')
     return "\n".join(out) + "\n"
 
